@@ -49,6 +49,10 @@ type Knobs struct {
 	Persistent map[string]bool `json:"persistent,omitempty"`
 	StepCap    int             `json:"stepCap"`
 	RejectDev  bool            `json:"rejectDev,omitempty"` // devices refuse Sets containing DevRejectValue
+	// Resync (C04, C10): resolved by the runner - a fault placed at one of the pushes of a re-synchronisation
+	Resync *ResyncSpec `json:"resync,omitempty"`
+	// SharedChannel: see Device.Shared
+	SharedChannel bool `json:"sharedChannel,omitempty"`
 	// Align (C05): resolved by the runner - the value of the marked leaf is sized so that a validated document is an
 	// exact multiple of the plugin chunk size (or one byte off)
 	Align *AlignSpec `json:"align,omitempty"`
@@ -61,6 +65,16 @@ type AlignSpec struct {
 	Pick int `json:"pick"` // which of the documents containing the marker (modulo their number)
 	Eps  int `json:"eps"`  // offset from the exact multiple
 	Mult int `json:"mult"` // 0: the next multiple of the chunk size, 1: one further
+}
+
+// ResyncSpec asks the runner to execute the plan once, find the southbound Sets the configuration controller issued to
+// Target (the pushes of its re-synchronisations) and place a fault of Kind at the Pick-th last of them: while it is in
+// flight (On = during-devset) or right after the device answered it (after-devset).
+type ResyncSpec struct {
+	Target string `json:"target"`
+	Pick   int    `json:"pick"`
+	Kind   string `json:"kind"`
+	On     string `json:"on"`
 }
 
 // AlignMarker starts the value of the leaf an AlignSpec sizes.
